@@ -27,7 +27,7 @@ out += ["", "What the misses taught:",
         "* purely functional lattices miss history-dependent slips: call SEQUENCES on one object are part of the alphabets now (coarse-then-fine precision, other model first, a Composition object reused across mixtures, near-collision sibling operations in the purity menus);",
         "* an early 'not judged' return must not skip independent parts of an oracle (C09); pairs in which one twin raises carry information too (C06 outcome asymmetry by margin);",
         "* dangerous states found by one exploration should be fed to every other entry point (C10);",
-        "* round 5: values CLOSE TO but not AT a special value (process temperature 0.25 K beside the curve temperature), signs (negative and zero activation energies), slow runs whose states differ in the 7th digit, programmes whose value at t = 0 differs from the stated initial temperature, the caller editing returned objects in place, interpreter-wide switches (numpy error mode, attrs validators) as part of the canonical state, and thin hang regions located by bisection with the library's own step function (neutral 2-cycles of pressure mode) rather than hoped for on a grid.", ""]
+        "* round 5: values CLOSE TO but not AT a special value (process temperature 0.25 K beside the curve temperature), signs (negative and zero activation energies), slow runs whose states differ in the 7th digit, programmes whose value at t = 0 differs from the stated initial temperature, the caller editing returned objects in place, interpreter-wide switches (numpy error mode, attrs validators) as part of the canonical state, and thin hang regions located by bisection with the library's own step function (neutral 2-cycles of pressure mode) rather than hoped for on a grid; slowly contracting iterations (hundreds of evaluations) judged too, strongly non-ideal parameter sets, a raising inverse where the forward call returns, the caller editing a membrane's experiment list between queries, no-driving-force pressures and zero-point curves in the specification cells.", ""]
 p = os.path.join(HERE, "DESIGN.md")
 s = open(p).read()
 s = re.sub(r"\n### 8\.5 Independent seeded changes.*", "", s, flags=re.S)
